@@ -430,7 +430,7 @@ func raceMain() {
 			e.Fail(sig, m, map[string]any{"seed": e.Seed, "round": round, "round_seed": seed})
 		}
 	}
-	stress["exclusive"] = exclStress(e, e.Pick(12000, 80000))
+	stress["exclusive"] = exclStress(e, e.Pick(8000, 80000))
 	pool := poolPhase(e, e.Pick(2, 3)) // sync.Pool drops items at random in a race build: the plain build is the deterministic one
 	e.Finish("random mixes of Reader.Get / DecodeStream / Decode / DecodeExclusive / StoreOrLoadPair from 8 goroutines on one Extractor, plus independent Writers/Readers, cmap.Predefined and mapping.Get*Mapping in 3 more goroutines, under the Go scheduler in a -race build (a TEST: sampled schedules)",
 		map[string]any{"race_rounds": rounds, "race_operations": totalOps.Load(), "race_functional_failures": nfail, "pool_in_race_build": pool, "errors_in_race_build": errPhase(e), "concurrent_reads_in_race_build": cryptPhase(e, e.Pick(8, 100)), "stress_in_race_build": stress})
